@@ -65,7 +65,7 @@ CHECKS = [
        "binary_spec is the whole table: every operator x every pair of operand values (shifts modulo 64, bytes modulo 2^8, integer/byte mixes, float rows incl. the IEEE order laws proved on Lean's Float model, string/char order and concatenation, repetition, element-wise array equality). "
        "Two hypotheses remain: the property's memory exclusion (hugeRepeat) and convZeroRow (float / int, float % int: Int64.toFloat is an opaque constant of Lean, so `(b == 0) = (b.toFloat == 0.0)` cannot be derived; covered by the differential run)."),
     _c("C10", "Lean refinement proof (hash-table model refines an association list under ==) + differential run on a real HMap",
-       "Kernel-checked: keys equal under == feed the same byte stream to the hasher (unconditionally: the IEEE fact "doubles that compare equal have the same bits once -0.0 is normalised" is proved from Lean's Float model — floatLaw, via injectivity of the binary64 unpacking), hence get/insert equal the association-list spec, "
+       "Kernel-checked: keys equal under == feed the same byte stream to the hasher (unconditionally: the IEEE fact 'doubles that compare equal have the same bits once -0.0 is normalised' is proved from Lean's Float model — floatLaw, via injectivity of the binary64 unpacking), hence get/insert equal the association-list spec, "
        "the pairwise law, and refinement for every sequence of inserts and lookups. The real `impl Hash` is observed with a recording Hasher; a real HMap is driven through insert/get/contains/len, m[k], m[k]=v.",
        "Assumes std HashMap finds an entry iff hashes are equal and keys ==; SipHash collision-free on distinct streams."),
     _c("C11", "Lean theorems (UTF-8, chars/join, len round trips; arity contract) + every builtin × arity × kind differential run through the real VM",
